@@ -32,8 +32,10 @@ VARIABLES pool,     \* [id -> [st, rh, queued, held, outs, sat, sub, efail, sfai
           fb,       \* remaining fault budget [dup, crash]
           db,       \* committed database image [pool, outs]  (survives a crash)
           done,     \* history: completed outputs <<task, point, output>>
-          ran       \* history: set of [id, sub, ready, held, seqclash]  one per job preparation
-vars == <<pool, rhl, rhbase, q, cmds, jobs, net, acks, stopped, fb, db, done, ran>>
+          ran,      \* history: set of [id, sub, ready, held, seqclash]  one per job preparation
+          futseen,  \* [task -> largest future-trigger offset seen so far for that task definition]
+          maxfut    \* TaskPool.max_future_offset: cached largest future offset among the pooled task definitions
+vars == <<pool, rhl, rhbase, q, cmds, jobs, net, acks, stopped, fb, db, done, ran, futseen, maxfut>>
 
 Name(id) == id[1]
 Pt(id) == id[2]
@@ -92,19 +94,56 @@ RemoveIfComplete(pl, id) ==
 
 -----------------------------------------------------------------------------
 (* ------------------------------ runahead -------------------------------- *)
-PoolMaxFut(pl) == LET S == {TaskMaxFut(W, Name(i)) : i \in DOMAIN pl} IN IF S = {} THEN 0 ELSE Max(S)
+(* TaskDef.max_future_prereq_offset is filled in lazily, when a prerequisite with a future offset is first   *)
+(* generated for an instance of the task (also by the data store's graph-window walk), so the pool's largest *)
+(* future offset counts a task definition only once that has happened: futseen[t] grows from 0 towards       *)
+(* TaskMaxFut(W, t) at steps that create proxies.                                                            *)
+MaxFutWith(pl, fs) == LET S == {fs[Name(i)] : i \in DOMAIN pl} IN IF S = {} THEN 0 ELSE Max(S)
+PoolMaxFut(pl) == MaxFutWith(pl, futseen)
+PosOffsets(t) == {x \in {a.off : a \in UNION {Atoms(L.lhs) : L \in {M \in Lines(W) : M.rhs = t /\ M.lhs # NoExpr}}} : x > 0}
+FutChoices == {f \in [W.tasks -> 0..Max({0} \cup UNION {PosOffsets(t) : t \in W.tasks})] :
+                 \A t \in W.tasks : f[t] >= futseen[t] /\ (f[t] = futseen[t] \/ f[t] \in PosOffsets(t))}
 BasePoint(pl) == IF DOMAIN pl = {} THEN NoPoint ELSE Min({Pt(i) : i \in DOMAIN pl})
+(* with an empty pool compute_runahead starts from the first sequence point at or after the start point *)
+FirstPoint == LET S == {x \in AllPoints(W) : x >= W.start} IN IF S = {} THEN NoPoint ELSE Min(S)
+BaseOrFirst(pl) == IF DOMAIN pl = {} THEN FirstPoint ELSE BasePoint(pl)
+
+(* add_to_pool and remove call set_max_future_offset for a task whose          *)
+(* definition has a future offset (by then): the cached pool maximum is        *)
+(* refreshed from the pool as it is at that moment and, if it changed, the     *)
+(* limit is recomputed at once (compute_runahead(force=True)).  pl0: pool      *)
+(* before the step, pl2: after its spawns, pl3: after the removal that ends    *)
+(* it; fs: the definitions' offsets as seen by the end of the step.  The       *)
+(* children are added one by one in an order the model does not fix, so the    *)
+(* base point seen by a recomputation during the adds is any of the candidates *)
+(* below.  Result: the possible [l |-> limit, b |-> base, m |-> cached max].   *)
+PtSet(pl) == {Pt(i) : i \in DOMAIN pl}
+RhAfter(pl0, pl2, pl3, l0, b0, m0, fs) ==
+  LET added == DOMAIN pl2 \ DOMAIN pl0
+      removed == DOMAIN pl2 \ DOMAIN pl3
+      m2 == IF \E i \in added : fs[Name(i)] > 0 THEN MaxFutWith(pl2, fs) ELSE m0
+      m3 == IF \E i \in removed : fs[Name(i)] > 0 THEN MaxFutWith(pl3, fs) ELSE m2
+      newpts == PtSet(pl2) \ PtSet(pl0)
+      bases == IF DOMAIN pl0 = {} THEN newpts
+               ELSE {BasePoint(pl0)} \cup {x \in newpts : x < BasePoint(pl0)}
+      afterAdds == IF m2 # m0 /\ bases # {}
+                   THEN {[l |-> RunaheadLimit(W, b, m2, StopPt), b |-> b, m |-> m3] : b \in bases}
+                   ELSE {[l |-> l0, b |-> b0, m |-> m3]}
+  IN IF m3 # m2 /\ BaseOrFirst(pl3) # NoPoint
+     THEN {[l |-> RunaheadLimit(W, BaseOrFirst(pl3), m3, StopPt), b |-> BaseOrFirst(pl3), m |-> m3]}
+     ELSE afterAdds
 
 (* TaskPool.compute_runahead, including its early return when the base point *)
-(* has not moved or the limit already sits at the stop point.                *)
+(* has not moved, or has moved forward while the limit already sits at the   *)
+(* stop point.                                                               *)
 ComputeRunahead ==
   /\ stopped = "no"
-  /\ DOMAIN pool # {}
-  /\ LET base == BasePoint(pool)
-         lim == RunaheadLimit(W, base, PoolMaxFut(pool), StopPt)
-     IN /\ (rhl = NoPoint \/ (base # rhbase /\ rhl # StopPt))
+  /\ BaseOrFirst(pool) # NoPoint
+  /\ LET base == BaseOrFirst(pool)
+         lim == RunaheadLimit(W, base, maxfut, StopPt)
+     IN /\ (rhl = NoPoint \/ (base # rhbase /\ ~(rhl = StopPt /\ base > rhbase)))
         /\ rhl' = lim /\ rhbase' = base
-  /\ UNCHANGED <<pool, q, cmds, jobs, net, acks, stopped, fb, db, done, ran>>
+  /\ UNCHANGED <<pool, q, cmds, jobs, net, acks, stopped, fb, db, done, ran, futseen, maxfut>>
 
 (* TaskPool.release_runahead_tasks: everything at or below the cached limit; *)
 (* each released task spawns its next parentless instance.                  *)
@@ -115,10 +154,14 @@ ReleaseAll(pl, ids) ==
        IN ReleaseAll(WithNextParentless([pl EXCEPT ![i].rh = FALSE], i), ids \ {i})
 ReleaseRunahead ==
   /\ stopped = "no" /\ rhl # NoPoint
+  /\ ~ENABLED ComputeRunahead     \* (every caller computes the limit first: compute_runahead(); release_runahead_tasks())
   /\ LET ids == {i \in DOMAIN pool : pool[i].rh /\ Pt(i) <= rhl}
      IN /\ ids # {}
         /\ pool' = ReleaseAll(pool, ids)
-  /\ UNCHANGED <<rhl, rhbase, q, cmds, jobs, net, acks, stopped, fb, db, done, ran>>
+        /\ \E fs \in FutChoices :
+              /\ futseen' = fs
+              /\ \E r \in RhAfter(pool, ReleaseAll(pool, ids), ReleaseAll(pool, ids), rhl, rhbase, maxfut, fs) : rhl' = r.l /\ rhbase' = r.b /\ maxfut' = r.m
+  /\ UNCHANGED <<q, cmds, jobs, net, acks, stopped, fb, db, done, ran>>
 
 -----------------------------------------------------------------------------
 (* ------------------------------- queues --------------------------------- *)
@@ -131,7 +174,7 @@ QueueIfReady(id) ==
   /\ stopped = "no" /\ id \in DOMAIN pool /\ Ready(id) /\ ~pool[id].queued
   /\ pool' = [pool EXCEPT ![id].queued = TRUE]
   /\ q' = [q EXCEPT ![QueueOf(W, Name(id))] = Append(@, id)]
-  /\ UNCHANGED <<rhl, rhbase, cmds, jobs, net, acks, stopped, fb, db, done, ran>>
+  /\ UNCHANGED <<rhl, rhbase, cmds, jobs, net, acks, stopped, fb, db, done, ran, futseen, maxfut>>
 
 NActive(qn) == Cardinality({i \in DOMAIN pool : QueueOf(W, Name(i)) = qn /\ Active(pool[i])})
 HeldIds == {i \in DOMAIN pool : pool[i].held}
@@ -156,7 +199,26 @@ ReleaseQueue(qn) ==
                                ready |-> ReadyByGraph(W, Name(i), Pt(i), done),
                                held |-> pool[i].held,
                                seqclash |-> \E j \in DOMAIN pool : j # i /\ Name(j) = Name(i) /\ Active(pool[j])] : i \in ids}
-  /\ UNCHANGED <<rhl, rhbase, jobs, net, acks, stopped, fb, db, done>>
+  /\ UNCHANGED <<rhl, rhbase, jobs, net, acks, stopped, fb, db, done, futseen, maxfut>>
+
+(* Scheduler.release_tasks_to_run: one call releases from every queue (the    *)
+(* queues are independent: a task belongs to exactly one), i.e. the          *)
+(* composition of ReleaseQueue(qn) over all queue names.  Not a disjunct of  *)
+(* Next (it adds no reachable state); used to match one real call when       *)
+(* traces of the implementation are validated against this model (SchedMT).  *)
+ReleaseQueues ==
+  /\ stopped = "no"
+  /\ LET rel(qn) == Range(QueueRelease(q[qn], QueueLimit(W, qn), NActive(qn), HeldIds))
+         ids == UNION {rel(qn) : qn \in QNames}
+     IN /\ ids # {}
+        /\ pool' = Prepare(pool, ids)
+        /\ q' = [qn \in QNames |-> SelectSeq(q[qn], LAMBDA i : i \notin ids)]
+        /\ cmds' = cmds \cup {<<i, pool[i].sub + 1>> : i \in ids}
+        /\ ran' = ran \cup {[id |-> i, sub |-> pool[i].sub + 1,
+                               ready |-> ReadyByGraph(W, Name(i), Pt(i), done),
+                               held |-> pool[i].held,
+                               seqclash |-> \E j \in DOMAIN pool : j # i /\ Name(j) = Name(i) /\ Active(pool[j])] : i \in ids}
+  /\ UNCHANGED <<rhl, rhbase, jobs, net, acks, stopped, fb, db, done, futseen, maxfut>>
 
 -----------------------------------------------------------------------------
 (* --------------------------- environment: jobs -------------------------- *)
@@ -170,14 +232,14 @@ EnvLaunch(c) ==
      \/ /\ Name(c[1]) \in SubmitFail
         /\ acks' = acks \cup {<<c[1], c[2], FALSE>>}
         /\ UNCHANGED <<jobs, net>>
-  /\ UNCHANGED <<pool, rhl, rhbase, q, stopped, fb, db, done, ran>>
+  /\ UNCHANGED <<pool, rhl, rhbase, q, stopped, fb, db, done, ran, futseen, maxfut>>
 
 (* a job runs one step of its script and sends the message *)
 EnvJobStep(j) ==
   /\ j \in DOMAIN jobs /\ jobs[j].pos < Len(jobs[j].script) /\ Faults.net
   /\ jobs' = [jobs EXCEPT ![j].pos = @ + 1]
   /\ net' = [net EXCEPT ![j] = Append(@, jobs[j].script[jobs[j].pos + 1])]
-  /\ UNCHANGED <<pool, rhl, rhbase, q, cmds, acks, stopped, fb, db, done, ran>>
+  /\ UNCHANGED <<pool, rhl, rhbase, q, cmds, acks, stopped, fb, db, done, ran, futseen, maxfut>>
 
 -----------------------------------------------------------------------------
 (* --------------------------- message processing ------------------------- *)
@@ -193,7 +255,8 @@ Process(id, m, flag, msub) ==
       pl1 == [pool EXCEPT ![id] = r2]
       pl2 == FireOutputs(pl1, id, eff.fired)
   IN [pool |-> RemoveIfComplete(pl2, id),
-      newdone |-> {<<Name(id), Pt(id), o>> : o \in eff.r.outs}]
+      newdone |-> {<<Name(id), Pt(id), o>> : o \in eff.r.outs},
+      rh |-> [fs \in FutChoices |-> RhAfter(pool, pl2, RemoveIfComplete(pl2, id), rhl, rhbase, maxfut, fs)]]
 
 (* the submit command's callback reaches the scheduler *)
 SubmitCallback(a) ==
@@ -201,9 +264,10 @@ SubmitCallback(a) ==
   /\ acks' = acks \ {a}
   /\ IF a[1] \in DOMAIN pool /\ pool[a[1]].sub = a[2]
      THEN LET res == Process(a[1], IF a[3] THEN "submitted" ELSE "submit-failed", "internal", a[2])
-          IN pool' = res.pool /\ done' = done \cup res.newdone
-     ELSE UNCHANGED <<pool, done>>
-  /\ UNCHANGED <<rhl, rhbase, q, cmds, jobs, net, stopped, fb, db, ran>>
+          IN /\ pool' = res.pool /\ done' = done \cup res.newdone
+             /\ \E fs \in FutChoices : futseen' = fs /\ \E r \in res.rh[fs] : rhl' = r.l /\ rhbase' = r.b /\ maxfut' = r.m
+     ELSE UNCHANGED <<pool, done, rhl, rhbase, futseen, maxfut>>
+  /\ UNCHANGED <<q, cmds, jobs, net, stopped, fb, db, ran>>
 
 (* a job message is delivered and processed (per-job FIFO unless reordering is on) *)
 Deliver(j, k, dup) ==
@@ -213,9 +277,10 @@ Deliver(j, k, dup) ==
             ELSE net' = [net EXCEPT ![j] = [x \in 1..(Len(@) - 1) |-> IF x < k THEN @[x] ELSE @[x + 1]]] /\ UNCHANGED fb
   /\ IF j[1] \in DOMAIN pool
      THEN LET res == Process(j[1], net[j][k], "received", j[2])
-          IN pool' = res.pool /\ done' = done \cup res.newdone
-     ELSE UNCHANGED <<pool, done>>          \* task no longer in the pool: job record only
-  /\ UNCHANGED <<rhl, rhbase, q, cmds, jobs, acks, stopped, db, ran>>
+          IN /\ pool' = res.pool /\ done' = done \cup res.newdone
+             /\ \E fs \in FutChoices : futseen' = fs /\ \E r \in res.rh[fs] : rhl' = r.l /\ rhbase' = r.b /\ maxfut' = r.m
+     ELSE UNCHANGED <<pool, done, rhl, rhbase, futseen, maxfut>>          \* task no longer in the pool: job record only
+  /\ UNCHANGED <<q, cmds, jobs, acks, stopped, db, ran>>
 
 (* reliable, in-order, immediate delivery (no message network): the job's next message is processed at once *)
 JobStepDirect(j) ==
@@ -223,9 +288,10 @@ JobStepDirect(j) ==
   /\ jobs' = [jobs EXCEPT ![j].pos = @ + 1]
   /\ IF j[1] \in DOMAIN pool
      THEN LET res == Process(j[1], jobs[j].script[jobs[j].pos + 1], "received", j[2])
-          IN pool' = res.pool /\ done' = done \cup res.newdone
-     ELSE UNCHANGED <<pool, done>>
-  /\ UNCHANGED <<rhl, rhbase, q, cmds, net, acks, stopped, fb, db, ran>>
+          IN /\ pool' = res.pool /\ done' = done \cup res.newdone
+             /\ \E fs \in FutChoices : futseen' = fs /\ \E r \in res.rh[fs] : rhl' = r.l /\ rhbase' = r.b /\ maxfut' = r.m
+     ELSE UNCHANGED <<pool, done, rhl, rhbase, futseen, maxfut>>
+  /\ UNCHANGED <<q, cmds, net, acks, stopped, fb, db, ran>>
 
 -----------------------------------------------------------------------------
 (* ------------------------- shutdown and stall --------------------------- *)
@@ -241,7 +307,7 @@ AutoShutdown ==
                             /\ Pt(i) > StopPt \/ pool[i].sat \cap AllAtomKeys(W, Name(i), Pt(i)) = {}
   /\ ~ENABLED ReleaseRunahead /\ ~ENABLED ComputeRunahead
   /\ stopped' = "auto"
-  /\ UNCHANGED <<pool, rhl, rhbase, q, cmds, jobs, net, acks, fb, db, done, ran>>
+  /\ UNCHANGED <<pool, rhl, rhbase, q, cmds, jobs, net, acks, fb, db, done, ran, futseen, maxfut>>
 
 (* TaskPool.is_stalled *)
 Stall ==
@@ -251,7 +317,7 @@ Stall ==
   /\ ~ENABLED ReleaseRunahead /\ ~ENABLED ComputeRunahead
   /\ Quiet
   /\ stopped' = "stalled"
-  /\ UNCHANGED <<pool, rhl, rhbase, q, cmds, jobs, net, acks, fb, db, done, ran>>
+  /\ UNCHANGED <<pool, rhl, rhbase, q, cmds, jobs, net, acks, fb, db, done, ran, futseen, maxfut>>
 
 -----------------------------------------------------------------------------
 RECURSIVE LoadFirst(_, _)
@@ -270,6 +336,9 @@ Init ==
   /\ done = {} /\ ran = {}
   /\ pool = LoadFirst(<<>>, W.tasks)       \* TaskPool.load_from_point
   /\ db = [pool |-> {}]
+  /\ futseen \in {f \in [W.tasks -> 0..Max({0} \cup UNION {PosOffsets(t) : t \in W.tasks})] :
+                      \A t \in W.tasks : f[t] = 0 \/ f[t] \in PosOffsets(t)}     \* (start-up creates proxies too)
+  /\ maxfut \in 0..MaxFutWith(pool, futseen)
 
 Next ==
   \/ ComputeRunahead
@@ -307,12 +376,29 @@ C03_ShutdownQuiescent ==
   stopped = "auto" => \A i \in DOMAIN pool : ~Active(pool[i]) /\ ~(Final(pool[i]) /\ ~Complete(W, Name(i), pool[i].outs))
 C03_StallIsReal == stopped = "stalled" => \A i \in DOMAIN pool : ~Active(pool[i]) /\ ~Ready(i)
 
-(* C04: nothing is out of the runahead pool beyond the limit of the current pool *)
+(* C04: a task leaves the runahead pool only at or below the cached limit (action property), and the cached   *)
+(* limit is never ahead of the formula over the current pool.  As a state invariant ("nothing released lies    *)
+(* beyond the limit of the current pool") this only holds for workflows without future triggers: with them the *)
+(* limit shrinks again when the last pooled task with a future offset leaves, and tasks already released stay  *)
+(* released.                                                                                                   *)
+C04_ReleaseStepOK ==
+  \A i \in DOMAIN pool \cap DOMAIN pool' : (pool[i].rh /\ ~pool'[i].rh) => (rhl # NoPoint /\ Pt(i) <= rhl)
+C04_ReleaseStep == [][C04_ReleaseStepOK]_vars
 C04_ReleasedWithinLimit ==
+  (\A t \in W.tasks : PosOffsets(t) = {}) =>
   \A i \in DOMAIN pool : (~pool[i].rh /\ pool[i].st = "waiting" /\ rhl # NoPoint)
                             => Pt(i) <= RunaheadLimit(W, rhbase, PoolMaxFut(pool), StopPt)
 C04_CachedLimitNotAhead ==
-  (rhl # NoPoint /\ DOMAIN pool # {}) => rhl <= RunaheadLimit(W, BasePoint(pool), PoolMaxFut(pool), StopPt)
+  (rhl # NoPoint /\ DOMAIN pool # {} /\ ~ENABLED ComputeRunahead)
+     => rhl <= RunaheadLimit(W, BasePoint(pool), PoolMaxFut(pool), StopPt)
+(* the statement of C04 itself: a task is released only at or below the limit of the pool as it is then *)
+C04_ReleaseWithinFormulaOK ==
+  \A i \in DOMAIN pool \cap DOMAIN pool' :
+     (pool[i].rh /\ ~pool'[i].rh) => Pt(i) <= RunaheadLimit(W, BasePoint(pool), PoolMaxFut(pool), StopPt)
+C04_ReleaseWithinFormula == [][C04_ReleaseWithinFormulaOK]_vars
+
+(* the cached pool maximum never exceeds what the pooled definitions justify *)
+C04_MaxFutCacheNotAhead == maxfut <= PoolMaxFut(pool)
 
 (* C05: queue limits *)
 C05_LimitRespected ==
